@@ -6,6 +6,7 @@
    the dependency-order oracle `order` are universally quantified everywhere. *)
 From LLB Require Import Engine.Rules Engine.Spec Engine.Exec Engine.Cancel
   Engine.CancelProofs Engine.CancelProofs2 Engine.CancelProofs3 Engine.CancelProofs4 Engine.CancelProofs5.
+From LLB Require Import Engine.SpecInv1 Engine.SpecC01 Engine.CancelProofs6 Engine.CancelProofs7.
 From Coq Require Import List NArith Bool Lia Arith.
 Local Open Scope N_scope.
 
@@ -121,7 +122,9 @@ Theorem c05_unflagged_runs_only_for_input : forall rules env F order fuel stack 
 Proof. exact unflagged_runs_only_for_input. Qed.
 Print Assumptions c05_unflagged_runs_only_for_input.
 
-(* ---------- the two refutations (replayable histories; task arithmetic mixF, identity order oracle, fuel 20) ---------- *)
+(* ---------- the two refutations (replayable histories; task arithmetic mixF, identity order oracle, fuel 20) ----------
+   w_last ops  = last_result (st_log (h_st (run_chistory mixF ord_id 20 ops))) : (value, failed) of the last build of ops;
+   w_clean ops k = clean_value mixF 20 (run_chistory mixF ord_id 20 ops) k     : cv of k in the world ops has reached. *)
 
 (* c05_same_engine_v0_refuted: WITHOUT the flag (`cancel_reset_v0`: the engine before the fix, where a rule in progress
    keeps value and epochs and the dependency list re-recorded so far) there is a history
@@ -130,9 +133,9 @@ Print Assumptions c05_unflagged_runs_only_for_input.
    build 1; set 4 8; build 1 cancelled after 14 events; build 1 -> (891684,0), clean (888378,0). *)
 Theorem c05_same_engine_v0_refuted :
   exists (ops : list cop) (k : key) (n : nat) (v : value),
-    last_result (st_log (h_st (run_chistory mixF ord_id 20 (ops ++ [CBuildCancelV0 k n])))) = Some (None, true) /\
-    last_result (st_log (h_st (run_chistory mixF ord_id 20 (ops ++ [CBuildCancelV0 k n; CPlain (OBuild k)])))) = Some (Some v, false) /\
-    clean_value mixF 20 (run_chistory mixF ord_id 20 (ops ++ [CBuildCancelV0 k n; CPlain (OBuild k)])) k <> Some v.
+    w_last (ops ++ [CBuildCancelV0 k n]) = Some (None, true) /\
+    w_last (ops ++ [CBuildCancelV0 k n; CPlain (OBuild k)]) = Some (Some v, false) /\
+    w_clean (ops ++ [CBuildCancelV0 k n; CPlain (OBuild k)]) k <> Some v.
 Proof. exact same_engine_v0_refuted_ex. Qed.
 Print Assumptions c05_same_engine_v0_refuted.
 
@@ -186,3 +189,53 @@ Theorem c05_discovered_window_pending :
   ~ no_pending_discovered s2_rules s2_abort (length (st_log s2_before)).
 Proof. exact discovered_window_pending. Qed.
 Print Assumptions c05_discovered_window_pending.
+
+(* ---------- c05_later_builds_clean (on top of the C01 invariant: Engine/SpecInv1-3.v, Engine/SpecC01.v) ----------
+   Hypotheses, exactly those of C01 (`rank`: the rules are acyclic; discovered dependencies are observing rules; the
+   order oracle permutes; `R`/`table_ok`: one rule per (key, signature)) plus: the state before the build is at rest
+   (`AtRest`: true of `init_state`, preserved by every build, restart and - this theorem - cancelled build), and the
+   excluding hypothesis `no_pending_discovered` (without it: c05_discovered_window_refuted). *)
+
+(* with ranked rules a build with a cancellation request ends well or is cancelled (no real cycle, enough fuel) *)
+Theorem c05_build_cancel_outcomes : forall rules env F order rank R,
+  table_ok rules R -> wf_rank rules rank -> wf_disc rules -> wf_order order ->
+  forall n fuel s k, (rank k < fuel)%nat -> AtRest F R s ->
+  (exists s', build_cancel rules env F order n fuel s k = Ok s') \/
+  (exists s', build_cancel rules env F order n fuel s k = Cycle s' []).
+Proof. exact build_cancel_outcomes. Qed.
+Print Assumptions c05_build_cancel_outcomes.
+
+(* the state it leaves behind is at rest again *)
+Theorem c05_cancelled_build_at_rest : forall rules env F order rank R,
+  table_ok rules R -> wf_rank rules rank -> wf_disc rules -> wf_order order ->
+  forall n fuel s k o s', (rank k < fuel)%nat -> AtRest F R s ->
+  build_cancel rules env F order n fuel s k = o ->
+  (o = Ok s' \/ (o = Cycle s' [] /\ no_pending_discovered rules s' (length (st_log s)))) ->
+  AtRest F R s'.
+Proof. exact cancelled_build_at_rest. Qed.
+Print Assumptions c05_cancelled_build_at_rest.
+
+(* the next build, on the same engine (db = false) or on a new engine over the same database (db = true), for ANY
+   external state env' of that moment: succeeds, returns the clean-build value cv, and is at rest again *)
+Theorem c05_later_builds_clean : forall rules env F order rank R,
+  table_ok rules R -> wf_rank rules rank -> wf_disc rules -> wf_order order ->
+  forall n fuel s k o s', (rank k < fuel)%nat -> AtRest F R s ->
+  build_cancel rules env F order n fuel s k = o ->
+  (o = Ok s' \/ (o = Cycle s' [] /\ no_pending_discovered rules s' (length (st_log s)))) ->
+  forall (env' : key -> N) (db : bool) (fuel2 : nat) (k2 : key), (rank k2 < fuel2)%nat ->
+  exists s'', build rules env' F order fuel2 (if db then restart s' else s') k2 = Ok s'' /\
+              result_of s'' k2 = cv rules env' F fuel2 k2 /\ AtRest F R s''.
+Proof. exact later_builds_clean. Qed.
+Print Assumptions c05_later_builds_clean.
+
+(* history form: after a cancelled build, EVERY later build - after any changes of external state, restarts and
+   builds - reports the clean value of its moment *)
+Theorem c05_later_history_clean : forall F order fuel rank tbl,
+  wf_rank (rules_of tbl) rank -> wf_disc (rules_of tbl) -> wf_order order ->
+  forall h k n, HInv tbl F h -> (rank k < fuel)%nat -> pending_free F order fuel tbl h k n ->
+  forall ops k2, Forall no_rule_op ops -> Forall (build_ranked rank fuel) ops -> (rank k2 < fuel)%nat ->
+  let h' := fold_left (hstep F order fuel) ops (chstep F order fuel h (CBuildCancel k n)) in
+  exists s1, h_st (hstep F order fuel h' (OBuild k2)) =
+             emit s1 (EResult (cv (rules_of tbl) (env_of (h_env h')) F fuel k2) false).
+Proof. exact later_history_clean. Qed.
+Print Assumptions c05_later_history_clean.
